@@ -10,6 +10,7 @@ vf_results R;
 vf_args A;
 void (*vf_cex_writer)(FILE *f);
 int vf_suppress;
+const char *vf_cex_extra;      /* optional JSON fragment ("key":value) added to every counterexample file */
 uint64_t vf_violation_events;
 double vf_first_violation_t;
 
@@ -63,7 +64,7 @@ void vf_violation(const char *sig, const char *fmt, ...) {
     if (R.cex_dir) {
         snprintf(v->cex, sizeof v->cex, "%s/%s-%s-%d.json", R.cex_dir, R.property, A.mode ? A.mode : "x", nV);
         /* make the name unique per configuration */
-        char tag[64]; snprintf(tag, sizeof tag, "m%zu-w%d-f%02x-p%d", A.mtu, A.wifi, A.fill, A.part);
+        char tag[96]; snprintf(tag, sizeof tag, "m%zu-w%d-f%02x-p%d-a%ld-b%ld", A.mtu, A.wifi, A.fill, A.part, A.a, A.b);
         snprintf(v->cex, sizeof v->cex, "%s/%s-%s-%s-%d.json", R.cex_dir, R.property, A.mode ? A.mode : "x", tag, nV);
         FILE *f = fopen(v->cex, "w");
         if (f) {
@@ -73,6 +74,7 @@ void vf_violation(const char *sig, const char *fmt, ...) {
             fprintf(f, ",\"mode\":"); jstr(f, A.mode ? A.mode : "");
             fprintf(f, ",\"tier\":"); jstr(f, A.tier);
             fprintf(f, ",\"mtu\":%zu,\"wifi\":%d,\"fill\":%u,\"part\":%d,\"nparts\":%d,\"a\":%ld,\"b\":%ld,\"depth\":%ld", A.mtu, A.wifi, A.fill, A.part, A.nparts, A.a, A.b, A.depth);
+            if (vf_cex_extra) fprintf(f, ",%s", vf_cex_extra);
             if (vf_cex_writer) { fprintf(f, ","); vf_cex_writer(f); }
             fprintf(f, "}\n");
             fclose(f);
